@@ -11,11 +11,11 @@ open Posmint.Chain Posmint.Chain.B
 theorem handle_sign_kept {s s' : State} {m : Msg} (h : handle s m = some s') (a : Addr) (si : Sign)
     (hsi : aget s.sign a = some si) : aget s'.sign a = some si := by
   by_cases hm : (∀ k amt, m ≠ .stake k amt) ∧ (∀ a, m ≠ .unstake a) ∧ (∀ a, m ≠ .unjail a)
-  · obtain ⟨b, sup, p, ac, d, u, rfl⟩ := handle_other_shape h hm
+  · obtain ⟨b, sup, p, ac, d, u, acc, rfl⟩ := handle_other_shape h hm
     exact hsi
   · cases m with
     | stake k amt =>
-      obtain ⟨_, _, _, _, b, rel', sg, rfl, hsg⟩ := handle_stake_shape h
+      obtain ⟨_, _, _, _, b, rel', sg, acc, rfl, hsg⟩ := handle_stake_shape h
       rcases hsg with rfl | ⟨hnone, si0, rfl, _⟩
       · exact hsi
       · show aget (aset s.sign (keyAddr s k) si0) a = some si
